@@ -35,6 +35,7 @@ type fcase struct {
 	OtherSlot   bool     `json:"proposal_for_other_slot,omitempty"`
 	OtherIndex  bool     `json:"proposal_built_for_another_proposer_index,omitempty"`
 	AuctionSlow bool     `json:"auction_answers_after_2300ms,omitempty"`
+	Gated       bool     `json:"relays_answer_at_the_same_instant,omitempty"`
 	Graffiti    string   `json:"graffiti"`                   // ok | error | absent
 	Auction     string   `json:"auction"`                    // none | error | no-winner | winner
 	Relays      []string `json:"relay_unblinding,omitempty"` // block | 400 | transient | error | slow | hang
@@ -318,8 +319,13 @@ func runCase(c *harness.Ctx, id string, fc *fcase, uniq int) {
 		return
 	}
 	// relays
+	var gate sync.WaitGroup
+	if fc.Gated {
+		gate.Add(len(fc.Relays))
+	}
 	for i, kind := range fc.Relays {
 		i, kind := i, kind
+		var gateOnce sync.Once
 		rl := &harness.Relay{Addr: fmt.Sprintf("http://relay%d.example.com/", i), KeyNo: i}
 		var calls int
 		var cmu sync.Mutex
@@ -328,6 +334,10 @@ func runCase(c *harness.Ctx, id string, fc *fcase, uniq int) {
 			calls++
 			n := calls
 			cmu.Unlock()
+			if fc.Gated {
+				gateOnce.Do(gate.Done)
+				gate.Wait() // every relay has the request in hand; they answer together
+			}
 			// does the request carry exactly the signed blinded block?
 			w.mu.Lock()
 			prop := w.proposal
@@ -635,6 +645,33 @@ func run(c *harness.Ctx) {
 			}()
 		})
 	}
+	// one relay returns the block at the very instant the others reject the request
+	ng := c.N(4000, 60000)
+	for i := 0; i < ng; i++ {
+		id := fmt.Sprintf("together%d", i)
+		c.Case(id, func() {
+			r := c.Rand("together", i)
+			fc := &fcase{Version: []string{"bellatrix", "capella", "deneb"}[r.Intn(3)], Blinded: true, Graffiti: "ok", Auction: "winner", AccountKind: r.Intn(4), Gated: true}
+			n := 3 + r.Intn(5)
+			if i%3 != 0 {
+				n = 40 + r.Intn(60) // many relays: the more of them answer at once, the likelier two of them meet
+			}
+			for k := 0; k < n; k++ {
+				fc.Relays = append(fc.Relays, []string{"400", "400", "error"}[r.Intn(3)])
+				fc.Listed = append(fc.Listed, k)
+			}
+			fc.Relays[r.Intn(n)] = "block"
+			wg.Add(1)
+			sem <- struct{}{}
+			go func() {
+				defer wg.Done()
+				defer func() { <-sem }()
+				runCase(c, id, fc, 100000+i)
+				c.Count("cases_with_relays_answering_together", 1)
+				c.Distinct(fmt.Sprintf("together|%s|%d", fc.Version, n))
+			}()
+		})
+	}
 	wg.Wait()
 }
 
@@ -644,7 +681,7 @@ func main() {
 	harness.Main(&harness.Spec{
 		Property:     "C05",
 		Level:        "exploration",
-		Rule:         "proposal duties over versions phase0..deneb x full/blinded x {proposal for the duty slot, for another slot} x graffiti {ok, error, no provider} x auction {no auctioneer, error, result without winner, winner with a random listed subset} x per-relay unblinding {block, 400, transient error then block, error, slow, hang} x {submission error, block signing error, unblind-from-all} x {block built for the duty validator, for another proposer index} x {auction answers at once, after 2.3 s}; nodes and signer refuse a request whose context has ended; Prepare then Propose on the real proposer with the real signer. distinct = the whole assignment",
+		Rule:         "proposal duties over versions phase0..deneb x full/blinded x {proposal for the duty slot, for another slot} x graffiti {ok, error, no provider} x auction {no auctioneer, error, result without winner, winner with a random listed subset} x per-relay unblinding {block, 400, transient error then block, error, slow, hang} x {submission error, block signing error, unblind-from-all} x {block built for the duty validator, for another proposer index} x {auction answers at once, after 2.3 s}; nodes and signer refuse a request whose context has ended; plus blinded proposals whose 3-100 relays all answer at the same instant, one of them with the block; Prepare then Propose on the real proposer with the real signer. distinct = the whole assignment",
 		Batches:      func(string) int { return 2 },
 		Parallel:     2,
 		Run:          run,
